@@ -43,6 +43,10 @@ pub trait TrSet: Trait + 'static {
         let _ = (v, dst, r);
         cx.ev.push(Ev::Unsupported);
     }
+    /// `dst.push(src.at(0).lazy_clone())` - element types of src and dst may differ (C04)
+    fn push_lazy_of_first<M1: MemB, M2: MemB>(src: &AnyVec<Self, M1>, dst: &mut AnyVec<Self, M2>) {
+        let _ = (src, dst);
+    }
 }
 
 macro_rules! plain_set {
@@ -80,6 +84,11 @@ macro_rules! cloneable_set {
             }
             fn lazy_op<E: Elem, M1: MemB, M2: MemB>(v: &mut AnyVec<Self, M1>, dst: &mut AnyVec<Self, M2>, r: &RStep, cx: &mut Cx<E>) {
                 lazy_op_impl::<E, Self, M1, M2>(v, dst, r, cx)
+            }
+            fn push_lazy_of_first<M1: MemB, M2: MemB>(src: &AnyVec<Self, M1>, dst: &mut AnyVec<Self, M2>) {
+                let e = lib(|| src.at(0));
+                let lz = lib(|| e.lazy_clone());
+                lib(|| dst.push(lz));
             }
         }
     };
